@@ -78,11 +78,11 @@ def run(tier, seed, replay=None):
     ccmds = ["(%s) | %s" % (" ; ".join("%s one '%s'" % (hbin, c) for c in corpus), runner)] if corpus else []
     if tier == "quick":
         cmds = ["%s small 2 | %s" % (hbin, runner)]
-        cmds += ["%s random 12000 %d 7 | %s" % (hbin, seed * 100 + i, runner) for i in range(8)]
+        cmds += ["%s random 9000 %d 7 | %s" % (hbin, seed * 100 + i, runner) for i in range(6)]
         cmds += ["%s stack 15000 %d | %s" % (hbin, seed * 100 + 70 + i, runner) for i in range(2)]
         cmds += ["%s stackmatch | %s" % (hbin, runner), "%s stackmatch | %s --no-memchr" % (hbin_nm, runner)]
         cmds += ["%s small 2 | %s --no-memchr" % (hbin_nm, runner)]
-        cmds += ["%s random 12000 %d 7 | %s --no-memchr" % (hbin_nm, seed * 100 + 50 + i, runner) for i in range(3)]
+        cmds += ["%s random 9000 %d 7 | %s --no-memchr" % (hbin_nm, seed * 100 + 50 + i, runner) for i in range(2)]
     else:
         cmds = ["%s small 4 | %s" % (hbin, runner), "%s small 3 | %s --no-memchr" % (hbin_nm, runner)]
         cmds += ["%s random 150000 %d 8 | %s" % (hbin, seed * 100 + i, runner) for i in range(10)]
@@ -104,7 +104,7 @@ def run(tier, seed, replay=None):
     mc_dir = os.path.join(BUILD, "c03_memchr")
     os.makedirs(mc_dir, exist_ok=True)
     gen = "small 2" if tier == "quick" else "small 3"
-    rnd = "random 20000 %d 7" % (seed * 100 + 33)
+    rnd = "random %d %d 7" % (8000 if tier == "quick" else 60000, seed * 100 + 33)
     run_pipeline(["(%s %s; %s %s) > %s/with.txt" % (hbin, gen, hbin, rnd, mc_dir), "(%s %s; %s %s) > %s/without.txt" % (hbin_nm, gen, hbin_nm, rnd, mc_dir)], timeout=1200)
     try:
         a = open(os.path.join(mc_dir, "with.txt")).read().split("\n")
